@@ -145,7 +145,7 @@ def check(name, tier="quick", props=None, seeds=(0,)):
 
 
 # checks other than the mutant's own property that plausibly see it too (cross-detection is reported, not required)
-RELATED = {"C01": ["C10", "C12"], "C02": ["C07", "C05"], "C03": ["C11"], "C04": ["C13", "C20"], "C05": ["C02", "C07", "C14"], "C06": ["C18"],
+RELATED = {"C01": ["C10", "C12"], "C02": ["C07", "C05"], "C03": ["C11"], "C04": ["C13", "C20", "C14"], "C05": ["C02", "C07", "C14"], "C06": ["C18"],
            "C07": ["C02", "C05", "C17"], "C08": ["C05"], "C09": ["C20", "C10"], "C10": ["C09", "C01"], "C11": ["C03"], "C12": ["C01", "C19"],
            "C13": ["C04", "C05"], "C14": ["C05"], "C15": ["C05", "C12"], "C16": ["C20"], "C17": ["C04"], "C18": ["C06", "C19"],
            "C19": ["C11"], "C20": ["C09", "C16"]}
